@@ -10,7 +10,7 @@ RULE = ("values m*2^k, m in {1, 1.5, 2-eps}, k in {-40,-10,-1,0,1,10,40}, both s
         "x rotations of the magnitude list x sparse formats, also through create_scaling on real problems; oracle: integer weights, scaled "
         "magnitudes in [1,2) resp. column sums in [1,4); distinct = input (pattern, magnitudes) with at least one entry of magnitude != 1")
 ASSUMPTIONS = ["zero entries / zero rows / zero columns are exempt as stated", "KKT: only when the equilibration returns (it may raise)",
-               "magnitudes within 2^-40..2^40"]
+               "pattern grids use magnitudes within 2^-40..2^40; single values cover every binary exponent of the normal range (2^k and its two neighbours)"]
 
 MANT = [1.0, 1.5, 2.0 - 2.0 ** -40]
 EXPS = [-40, -10, -1, 0, 1, 10, 40]
@@ -23,6 +23,9 @@ def cases(tier, seed):
     vals = VALUES + [0.0]
     for i, a in enumerate(vals):
         out.append({"kind": "nominal", "a": i})
+    # every binary exponent of the normal range: 2^k, its two neighbours, 1.5*2^k (both signs) as nominal value and gradient component
+    for k0 in range(-1022, 1024, 64):
+        out.append({"kind": "edges", "k0": k0, "k1": min(k0 + 64, 1024)})
     shapes = [(2, 2), (2, 3)] + ([(3, 3)] if tier == "thorough" else [(3, 2)])
     rots = range(0, 42, 5) if tier == "thorough" else range(0, 42, 11)
     for (m, n) in shapes:
@@ -84,6 +87,19 @@ def check_gradjac(sc, grad, J, bad, at):
                 bad("gradjac_row_max", f"scaled Jacobian row {i} has max {mx!r} not in [1,2) (raw row {J[i].tolist()}, weights cw={cw[i]} vw={vw.tolist()})", at)
 
 
+def as_format(dense, fmt):
+    """The same matrix in several storage forms; coo_dup / coo_cancel store every entry twice (two halves / 3v and -2v): a sparse
+    matrix with duplicate entries denotes their sums."""
+    import scipy.sparse as sps
+
+    if fmt in ("coo_dup", "coo_cancel"):
+        r, c = np.nonzero(dense)
+        v = dense[r, c]
+        parts = (0.5 * v, 0.5 * v) if fmt == "coo_dup" else (3.0 * v, -2.0 * v)
+        return sps.coo_matrix((np.concatenate(parts), (np.concatenate([r, r]), np.concatenate([c, c]))), shape=dense.shape)
+    return sps.coo_matrix(dense).asformat(fmt)
+
+
 def run_case(case):
     import scipy.sparse as sps
     from pygradflow.scale import Scaling
@@ -121,14 +137,35 @@ def run_case(case):
                     bad("scale_primal", "scale_primal differs from ldexp(x, var_weights)", at)
         key = f"nominal|{case['a']}" if abs(a) != 1.0 else None
         stats = {"inputs": n_pairs}
+    elif kind == "edges":
+        stats = {"inputs": 0}
+        for k in range(case["k0"], case["k1"]):
+            p2 = float(np.ldexp(1.0, k))
+            for v in (p2, float(np.nextafter(p2, 0.0)), float(np.nextafter(p2, np.inf)), 1.5 * p2):
+                if not np.isfinite(v) or abs(v) < 2.0 ** -1022:
+                    continue
+                for sgn in (1.0, -1.0):
+                    vals = np.array([sgn * v, 1.0])
+                    at = {"value": repr(sgn * v), "k": k}
+                    stats["inputs"] += 1
+                    sc = Scaling.from_nominal_values(vals.copy(), vals[::-1].copy())
+                    for name, raw, wts in (("var", vals, sc.var_weights), ("cons", vals[::-1], sc.cons_weights)):
+                        scd = np.ldexp(raw, np.asarray(wts))
+                        for j in range(2):
+                            if not in12(scd[j]):
+                                bad("nominal_" + name, f"scaled nominal {name} value {scd[j]!r} not in [1,2) (raw {raw[j]!r})", at)
+                    if abs(k) <= 500:
+                        J = np.array([[sgn * v, 0.0], [1.0, sgn * v]])
+                        check_gradjac(Scaling.from_grad_jac(vals.copy(), sps.coo_matrix(J)), vals, J, bad, at)
+        key = f"edges|{case['k0']}"
     elif kind == "gradjac":
         m, n = case["m"], case["n"]
         J = np.array(fill(case["pat"], m * n, case["rot"])).reshape((m, n))
         stats = {"inputs": 0}
         for gi, grad in enumerate([np.array(fill(2 ** n - 1, n, case["rot"] + 3, stride=7)),
                                    np.array(fill(2 ** n - 2, n, case["rot"] + 20, stride=3))]):
-            for fmt in ("coo", "csr", "csc"):
-                sm = sps.coo_matrix(J).asformat(fmt)
+            for fmt in ("coo", "csr", "csc", "coo_dup", "coo_cancel"):
+                sm = as_format(J, fmt)
                 at = {"grad": grad.tolist(), "J": J.tolist(), "fmt": fmt}
                 stats["inputs"] += 1
                 try:
@@ -150,11 +187,11 @@ def run_case(case):
                 k += 1
         J = np.array(fill(case["jp"], m * n, case["rot"])).reshape((m, n))
         stats = {"inputs": 0, "returned": 0}
-        for fmt in ("coo", "csr"):
+        for fmt in ("coo", "csr", "coo_dup", "coo_cancel"):
             at = {"H": Hm.tolist(), "J": J.tolist(), "fmt": fmt}
             stats["inputs"] += 1
             try:
-                sc = Scaling.from_equilibrated_kkt(sps.coo_matrix(Hm).asformat(fmt), sps.coo_matrix(J).asformat(fmt))
+                sc = Scaling.from_equilibrated_kkt(as_format(Hm, fmt), as_format(J, fmt))
             except Exception as e:
                 if "Equilibration failed to converge" in str(e):
                     continue
